@@ -255,3 +255,10 @@ BENIGN.update({
     "action-result-keywords": [(N, "            result = ActionResult(False, 0.0, permission_error=True)\n            return next_state, result\n\n        if action.is_exploit() \\", "            result = ActionResult(success=False, value=0.0,\n                                  permission_error=True)\n            return next_state, result\n\n        if action.is_exploit() \\")],
     "type-hints-added": [(S, "    def host_has_access(self, host_addr, access_level):", "    def host_has_access(self, host_addr: tuple, access_level: int) -> bool:")],
 })
+
+# ---- mode flow outside generative_step/step (C12.roles on abstract values)
+MUTANTS.update({
+    "reset-skips-step-counter-when-flat": ([(E, "        super().reset(seed=seed, options=options)\n        self.steps = 0", "        super().reset(seed=seed, options=options)\n        if not self.flat_obs:\n            self.steps = 0")], ["C12"]),
+    "goal-depends-on-fully-obs": ([(E, "        return self.network.all_sensitive_hosts_compromised(state)", "        return self.network.all_sensitive_hosts_compromised(state) and not self.fully_obs")], ["C12"]),
+    "reset-state-depends-on-flat-actions": ([(E, "        self.current_state = self.network.reset(self.current_state)\n        self.last_obs", "        if self.flat_actions:\n            self.current_state = self.network.reset(self.current_state)\n        self.last_obs")], ["C12"]),
+})
